@@ -27,7 +27,7 @@ KINDS = ['Classification', 'SequenceClassification', 'Generation', 'ConditionalG
 
 def shapes(tier):
     out = []
-    for t in c01.TEMPLATES:
+    for t in c01.templates(tier):
         for sp in ('default', 'bos_eos'):
             for g in (False, True):
                 for groups in ('Bytes', 'CodePoints'):
